@@ -2,6 +2,8 @@
 use crate::exec::Checker;
 use crate::trace::Trace;
 
+pub mod c08;
+pub mod c11;
 pub mod c14;
 pub mod common;
 
@@ -11,6 +13,8 @@ impl Checker for Nop {}
 pub fn make_checker(trace: &Trace, session: usize) -> Box<dyn Checker> {
     match trace.checker.as_str() {
         "C14" => Box::new(c14::C14Checker::new(trace, session)),
+        "C11" => Box::new(c11::C11Checker::new(trace, session)),
+        "C08" => Box::new(c08::C08Checker::new(trace, session)),
         _ => Box::new(Nop),
     }
 }
